@@ -4,7 +4,7 @@ translator validation against the real functions; L1 model of the capacity opera
 container; oracle = the property predicate evaluated on the real code (index enumeration + address stability)."""
 import os, sys, bisect
 
-GEN = ['gen_log2_64.json', 'gen_log2_32.json', 'gen_segsqrt.json', 'gen_segcnst.json']
+GEN = ['gen_log2_64.json', 'gen_log2_32.json', 'gen_segsqrt.json', 'gen_segcnst.json', 'gen_arr_sqrt.json', 'gen_arr_cnst.json']
 M64 = 2 ** 64
 PAR = 8
 
@@ -179,6 +179,33 @@ def gen_hist_cases(ctx, scale):
             toks.append(r.choice(['mAB', 'mBA', 'MAB', 'MBA', 'xAB', 'cAB', 'cBA', 'kAB', 'kBA']))
             toks += ['A.s%d' % r.below(limit), 'B.s%d' % r.below(limit)] if r.chance(1, 3) else []
         cases.append('hist2 %s %d %s' % (F, L, ' '.join(toks)))
+    return cases
+
+def gen_ghist_cases(ctx, scale):
+    """histories over the operations whose REAL bodies are translated by cxx2coq (Gen_ArrSqrt): AddBackCrt, Reserve, SetCountCrt
+    (pvIncCount / pvDecCount), Shrink(), Shrink(c), Clear(shrink), RemoveBack = pvDecCount"""
+    r = ctx.rng; cases = []
+    for n in range(160 * scale):
+        F = r.choice(['sq', 'cn']); L = r.choice([0, 0, 1, 2, 3, 5, 8])
+        limit = r.choice([40, 300, 2000, 6000]) if L < 8 else 6000
+        bnd = boundaries(F, L, limit * 2)
+        def near():
+            b = r.choice(bnd); return max(0, b + r.choice([-2, -1, 0, 0, 1, 2]))
+        cnt = 0; ops = []
+        for _ in range(r.range(5, 30)):
+            t = r.below(100)
+            if t < 30:
+                k = min(r.choice([1, 1, 2, 3, r.range(1, 40), max(1, near() - cnt)]), max(1, limit - cnt)); ops.append('%s%d' % (r.choice('ae'), k)); cnt += k
+            elif t < 45: ops.append('r%d' % r.choice([near(), cnt + r.below(50), r.below(limit), 0, 1]))
+            elif t < 62:
+                c = min(limit, r.choice([near(), r.below(limit), cnt + r.below(30), 0, 1, cnt])); ops.append('%s%d' % (r.choice('sS'), c)); cnt = c
+            elif t < 70: ops.append('k')
+            elif t < 80: ops.append('K%d' % r.choice([near(), r.below(limit), 0, max(0, cnt - 1), cnt, cnt + 1, SIZE_MAX]))
+            elif t < 92:
+                k = min(r.choice([1, 0, cnt, r.below(cnt + 1), max(0, cnt - near())]), cnt); ops.append('b%d' % k); cnt -= k
+            elif t < 96: ops.append('c'); cnt = 0
+            else: ops.append('C'); cnt = 0
+        cases.append('ghist %s %d %s' % (F, L, ' '.join(ops)))
     return cases
 
 # ------------------------------------------------------------------ measured coverage of the histories (from the real code's outputs)
@@ -395,6 +422,14 @@ def run(ctx):
         nidx = sum(int(c.split()[3]) if c[2] == 'r' else 1 for c in icases)
         ctx.evaluations += nidx - len(icases)
         ctx.tie_obligations.append({'name': 'generated Gallina == real C++ on %d case lines (%d indexes/values)' % (len(icases), nidx), 'ok': not mism})
+        gcases = gen_ghist_cases(ctx, scale)
+        gm, _ = ctx.correspond('generated-container', gcases, par + [harness], par + [ctx.model_exe], timeout=3000)
+        ctx.tie_obligations.append({'name': 'generated container functions (Gen_ArrSqrt: AddBackCrt, Reserve, SetCountCrt, Shrink, Clear, pvDecCount, '
+                                            'pvIncCapacity, pvDecCapacity, pvIncCount regenerated from SegmentedArray.h) == real momo::SegmentedArray on %d histories' % len(gcases), 'ok': not gm})
+        for (i, c, a, b) in [m for m in gm if m[2] != '<missing>'][:2]:
+            ctx.violation('generated container functions and the real container disagree', {'case': 'hist' + c[5:], 'impl': a[-300:], 'model': b[-300:],
+                          'cmd': 'echo "%s" | build/C16/harness' % c}, found_input=True)
+        ctx.coverage.setdefault('input_distribution', {})['ghist'] = len(gcases)
         hm, _ = ctx.correspond('capacity-model', hcases, par + [harness], par + [ctx.model_exe], timeout=3000)
         ctx.tie_obligations.append({'name': 'L1 capacity model (SegModel.step over the generated functions) == real momo::SegmentedArray '
                                             'on %d histories (count / segment count / capacity / newest segment id after every op)' % len(hcases), 'ok': not hm})
@@ -442,7 +477,9 @@ def run(ctx):
     for c in (icases[::max(1, len(icases) // 3)][:3] + hcases[:3]):
         ctx.add_sample(c[:300])
     kinds = ('lg64', 'lg32', 'sqr', 'cnr', 'sqs', 'sqx', 'cnx', 'sq ', 'cn ', 'hist sq ', 'hist cn ', 'hist sqw', 'hist cnw', 'hist2 sq ', 'hist2 cn ', 'hist2 sqw', 'hist2 cnw')
+    gh = ctx.coverage.get('input_distribution', {}).get('ghist', 0)
     ctx.coverage['input_distribution'] = {k.strip(): sum(1 for c in cases if c.startswith(k)) for k in kinds}
+    ctx.coverage['input_distribution']['ghist (generated container functions vs real)'] = gh
     ops = {}
     for c in hcases:
         for o in c.split()[3:]:
